@@ -19,6 +19,26 @@ pub trait ErrorInjector<Req, Err>: Send + Sync {
     fn error_rate(&self) -> f64;
 }
 
+/// The error rate already configured on a built-in injector.
+///
+/// Lets the builder carry the rate over when the error function is replaced.
+pub trait ConfiguredErrorRate {
+    /// The rate configured so far (0.0 when none).
+    fn configured_error_rate(&self) -> f64;
+}
+
+impl ConfiguredErrorRate for NoErrorInjection {
+    fn configured_error_rate(&self) -> f64 {
+        0.0
+    }
+}
+
+impl<F> ConfiguredErrorRate for CustomErrorFn<F> {
+    fn configured_error_rate(&self) -> f64 {
+        self.rate
+    }
+}
+
 /// No error injection - only latency chaos.
 ///
 /// This is the default error injector. Since it never injects errors,
@@ -226,10 +246,14 @@ impl<E> ChaosConfigBuilder<E> {
     pub fn error_fn<Req, Err, F>(self, f: F) -> ChaosConfigBuilder<CustomErrorFn<F>>
     where
         F: Fn(&Req) -> Err + Send + Sync + 'static,
+        E: ConfiguredErrorRate,
     {
+        // Replacing the error function keeps a rate that was already configured;
+        // otherwise the rate is set by a later error_rate()
+        let rate = self.error_injector.configured_error_rate();
         ChaosConfigBuilder {
             name: self.name,
-            error_injector: CustomErrorFn::new(f, 0.0), // rate will be set by error_rate()
+            error_injector: CustomErrorFn::new(f, rate),
             latency_rate: self.latency_rate,
             min_latency: self.min_latency,
             max_latency: self.max_latency,
